@@ -177,7 +177,7 @@ func (k *Kernel) procMain(p *Proc) {
 		}
 	}
 	if runErr != nil {
-		res.ErrText = runErr.Error()
+		res.ErrText = k.Norm(runErr.Error())
 		res.ErrType = reflect.TypeOf(runErr).String()
 		res.ExitCode = 1
 		if ae, ok := runErr.(query.Error); ok {
